@@ -553,6 +553,65 @@ theorem polled_run (hw : Wire w (msgToks h ds tr)) (cfg : Cfg) (hh : cfg.hdr.hea
         rw [show DPhase.done.app = APhase.done from rfl, follows_done_call] at hf
         cases hf
 
+/-- all deliveries at once -/
+theorem rinv_deliver_all (cs : List FS.Bytes) (hne : ∀ b ∈ cs, b ≠ []) (hcs : cs.flatten = w) {ph : DPhase}
+    {b : ReqRecv.Bytes} : ∀ (ps : List Peer) (D : List FS.Ev) (r : Req), RInv w h ds tr ph D b r →
+      D ++ fsScript ps <+: cs.map FS.Ev.chunk ++ [FS.Ev.fin] →
+      RInv w h ds tr ph (D ++ fsScript ps) b (ps.foldl Req.deliver r) := by
+  intro ps
+  induction ps with
+  | nil => intro D r hr _; simpa [fsScript] using hr
+  | cons p ps ih =>
+    intro D r hr hpre
+    rw [fsScript_cons, ← List.append_assoc] at hpre ⊢
+    have hD : Deliv w (D ++ fsOf p) := by
+      rw [← hcs]
+      exact deliv_of_prefix hne ((List.prefix_append _ _).trans hpre)
+    exact ih (D ++ fsOf p) (r.deliver p) (rinv_deliver p hr hD) hpre
+
+theorem follows_peers (cfg : Cfg) (fuel : Nat) : ∀ (ps : List Peer) (ph : APhase) (cell : Option Nat) (r : Req)
+    (rest : List StreamEv),
+    follows cfg fuel ph cell r (ps.map .peer ++ rest) = follows cfg fuel ph cell (ps.foldl Req.deliver r) rest := by
+  intro ps
+  induction ps with
+  | nil => intro ph cell r rest; rfl
+  | cons p ps ih =>
+    intro ph cell r rest
+    rw [List.map_cons, List.cons_append, follows_peer, ih]
+    rfl
+
+theorem peersOf_peers_calls (ps : List Peer) (cs : List Call) :
+    peersOf (ps.map StreamEv.peer ++ cs.map StreamEv.call) = ps := by
+  induction ps with
+  | nil =>
+    induction cs with
+    | nil => rfl
+    | cons c cs ih => simpa [peersOf] using ih
+  | cons p ps ih => simp only [List.map_cons, List.cons_append, peersOf, ih]
+
+/-- the schedule of `C07_healthy_stream_delivers` — everything delivered, then one poll of the head
+    call and one of the body task — follows the documented pattern: with FIN there the head call
+    answers at once -/
+theorem follows_delivered_first (hw : Wire w (msgToks h ds tr)) (cfg : Cfg) (hh : cfg.hdr.head h = .ok) (fuel : Nat)
+    (cs : List FS.Bytes) (hne : ∀ b ∈ cs, b ≠ []) (hcs : cs.flatten = w) :
+    follows cfg fuel .head none {}
+      ((cs.map Peer.chunk ++ [Peer.fin]).map StreamEv.peer ++ [.call .head, .call (.body fuel)]) = true := by
+  rw [follows_peers]
+  have hr0 := rinv_deliver_all (h := h) (ds := ds) (tr := tr) cs hne hcs (cs.map Peer.chunk ++ [Peer.fin]) [] {}
+    (rinv_init w h ds tr) (by rw [List.nil_append, fsScript_chunks_fin]; exact List.prefix_refl _)
+  rw [List.nil_append, fsScript_chunks_fin] at hr0
+  generalize (cs.map Peer.chunk ++ [Peer.fin]).foldl Req.deliver {} = r0 at hr0 ⊢
+  obtain ⟨r1, hc | hc⟩ := step_head hw cfg hh hr0
+  · obtain ⟨hstep, _⟩ := hc
+    have e1 : follows cfg fuel .head none r0 [.call .head, .call (.body fuel)] =
+        follows cfg fuel (APhase.after .head (Req.step cfg none r0 (.call .head)).2.2)
+          (Req.step cfg none r0 (.call .head)).2.1 (Req.step cfg none r0 (.call .head)).1 [.call (.body fuel)] := rfl
+    rw [e1, hstep]
+    show follows cfg fuel .body none r1 [.call (.body fuel)] = true
+    simp [follows]
+  · obtain ⟨_, _, hfin⟩ := hc
+    exact absurd (by simp) hfin
+
 end Run
 
 end H3.Iso
